@@ -110,9 +110,13 @@ func (s *served) serveStatus(st int, l string) {
 // ---------------------------------------------------------------------------
 // listings in each provider's own format
 
+// ollamaFormat: endpoints of type ollama, and auto-detected ones (whose first detection candidate is
+// the Ollama profile), are served Ollama-style listings; every other type OpenAI-style ones.
+func ollamaFormat(typ string) bool { return typ == "ollama" || typ == "auto" }
+
 func listingFor(typ string, names []string) string {
 	var sb strings.Builder
-	if typ == "ollama" {
+	if ollamaFormat(typ) {
 		sb.WriteString(`{"models":[`)
 		for i, n := range names {
 			if i > 0 {
@@ -138,7 +142,7 @@ func listingFor(typ string, names []string) string {
 
 // entrySize is the size written into ollama-style entries (set by the generator through sizeFor).
 func entryFor(typ string, nameJSON string, digest ...string) string {
-	if typ == "ollama" {
+	if ollamaFormat(typ) {
 		size := "1"
 		if len(digest) > 1 {
 			size = digest[1]
@@ -153,7 +157,7 @@ func entryFor(typ string, nameJSON string, digest ...string) string {
 }
 
 func wrapEntries(typ string, entries []string) string {
-	if typ == "ollama" {
+	if ollamaFormat(typ) {
 		return `{"models":[` + strings.Join(entries, ",") + `]}`
 	}
 	return `{"object":"list","data":[` + strings.Join(entries, ",") + `]}`
@@ -214,7 +218,7 @@ func genDisc(t *rapid.T) DiscCase {
 	c := DiscCase{
 		Engine: rapid.SampledFrom([]string{"sherpa", "olla"}).Draw(t, "engine"),
 		Mode:   rapid.SampledFrom([]string{"discover-all", "discover-all", "discover-all", "recovery"}).Draw(t, "mode"),
-		TypeA:  rapid.SampledFrom(s.profiles).Draw(t, "type-a"),
+		TypeA:  rapid.SampledFrom(append(append([]string{}, s.profiles...), "auto", "auto")).Draw(t, "type-a"),
 		TypeB:  rapid.SampledFrom(typesB).Draw(t, "type-b"),
 		Kind:   rapid.SampledFrom([]string{"unparseable", "empty", "nameless", "nameless", "duplicate", "duplicate", "mutated", "mutated", "oversized", "http-error"}).Draw(t, "kind"),
 		GoodA:  subset(t, "good-a", 1),
@@ -271,12 +275,12 @@ func genDisc(t *rapid.T) DiscCase {
 			// ollama-style entries carry a digest in one of the spellings seen in the wild: with an
 			// algorithm prefix, bare hex, short, empty, or absent; repeated names get differing ones
 			dg := "-"
-			if c.TypeA == "ollama" {
+			if ollamaFormat(c.TypeA) {
 				dg = rapid.SampledFrom([]string{"-", "-", fmt.Sprintf("sha256:%064d", i), fmt.Sprintf("%064x", 1000+i), fmt.Sprintf("abc%d", i), "", ":", "sha256:"}).Draw(t, "digest")
 			}
 			// sizes as a backend may report them, up to the largest a 64-bit integer holds
 			size := "1"
-			if c.TypeA == "ollama" {
+			if ollamaFormat(c.TypeA) {
 				size = rapid.SampledFrom([]string{"1", "1", "4661224676", "0", "1152921504606846976", "4611686018427387904", "9223372036854775807"}).Draw(t, "size")
 			}
 			entries = append(entries, entryFor(c.TypeA, nm, dg, size))
@@ -676,7 +680,7 @@ func runDisc(c DiscCase) []ev.Violation {
 						// the unified catalogue merges names that are equal up to letter case, and entries
 						// sharing a digest (the harness's ollama listings number their digests by position):
 						// the endpoint is then a legitimate source for n
-						equiv := c.TypeA == "ollama"
+						equiv := ollamaFormat(c.TypeA)
 						for have := range set {
 							if strings.EqualFold(have, n) {
 								equiv = true
